@@ -16,6 +16,9 @@
 #ifndef NPOP
 #define NPOP 2
 #endif
+#ifndef NPUSH2
+#define NPUSH2 NPUSH   /* pushes of the second pusher (asymmetric programs: one pusher stalls, the other laps it) */
+#endif
 lockfree_ring_buffer_t* rb;
 volatile uint64_t ops_begun, ops_done;      /* ghost counters of operations begun / completed (any kind) */
 volatile uint64_t pushes_ok, pops_ok;       /* ghost: completed successful pushes / pops */
@@ -34,8 +37,8 @@ void vm_setup(void) {
   rb->high = x; rb->low = x;
 }
 
-static inline void pusher(int id) {
-  for (int i = 0; i < NPUSH; i++) {
+static inline void pusher(int id, int npush) {
+  for (int i = 0; i < npush; i++) {
     uint64_t done_before = ops_done, pops_before = pops_ok, pushes_begun_before = pushes_ok_begun;
     __atomic_fetch_add(&ops_begun, 1, __ATOMIC_SEQ_CST);
     uint64_t v = id * 8 + i + 1;
@@ -65,7 +68,7 @@ static inline uint64_t popper(void) {
     uint64_t begun_after = ops_begun;
     if (v) {
       uint64_t id = (v - 1) / 8, k = (v - 1) % 8;
-      vm_assert(id < 2 && k < NPUSH, "C16 ring: trypop returned a value that was never pushed");
+      vm_assert(id < 2 && k < (NPUSH > NPUSH2 ? NPUSH : NPUSH2), "C16 ring: trypop returned a value that was never pushed");
       uint64_t old = __atomic_fetch_or(&popped_mask, 1ul << v, __ATOMIC_SEQ_CST);
       vm_assert(!(old & (1ul << v)), "C16 ring: a pushed item was popped twice");
       /* one popper sees each pusher's items in push order */
@@ -86,11 +89,11 @@ static inline uint64_t popper(void) {
 }
 
 #if defined(CFG_2P1C)
-void vm_thread_1(void) { pusher(0); }
-void vm_thread_2(void) { pusher(1); }
+void vm_thread_1(void) { pusher(0, NPUSH); }
+void vm_thread_2(void) { pusher(1, NPUSH2); }
 void vm_thread_3(void) { res1 = popper(); }
 #else /* 1 pusher, 2 poppers */
-void vm_thread_1(void) { pusher(0); }
+void vm_thread_1(void) { pusher(0, NPUSH); }
 void vm_thread_2(void) { res1 = popper(); }
 void vm_thread_3(void) { res2 = popper(); }
 #endif
